@@ -250,3 +250,82 @@ Lemma ex_font_size :
   /\ ap_quant font_size_prop (plain (PInt 12699)) = Err ValueErr
   /\ ap_quant font_size_prop (plain (PStr (s2l "x"))) = Err ValueErr.
 Proof. vm_compute. auto. Qed.
+
+(** * exact read-back (quantum 0: 1 EMU) for the coordinate types whose reader also accepts
+      universal measures (outside C11_RT): position, margins *)
+Close Scope lit_scope.
+Definition emu_char (x : N) : bool := is_digit x || N.eqb x 45.
+Lemma str_of_Z_chars z : forallb emu_char (str_of_Z z) = true.
+Proof.
+  destruct (str_of_Z_digits z) as [A B]. destruct (Z.ltb_spec z 0) as [Hn|Hp].
+  - destruct (B Hn) as [ds [-> Hd]]. cbn [forallb]. unfold emu_char at 1. simpl.
+    unfold all_digits in Hd. destruct ds; [discriminate|]. apply forallb_forall. intros x Hx.
+    unfold emu_char. rewrite (proj1 (forallb_forall _ _) Hd x Hx). auto.
+  - specialize (A Hp). unfold all_digits in A. destruct (str_of_Z z); [discriminate|].
+    apply forallb_forall. intros x Hx. unfold emu_char. rewrite (proj1 (forallb_forall _ _) A x Hx). auto.
+Qed.
+Lemma no_letter c s : forallb emu_char s = true -> emu_char c = false -> is_substr [c] s = false.
+Proof.
+  intros H Hc. induction s as [|y s IH]; [reflexivity|].
+  cbn [forallb] in H. apply andb_true_iff in H as [Hy Hs].
+  cbn [is_substr starts_with]. rewrite IH by auto. rewrite orb_false_r, andb_true_r.
+  destruct (N.eqb_spec c y); auto. subst. congruence.
+Qed.
+
+Lemma coordinate_reads z : (Z.abs z < 10 ^ Z.of_N int_max_str_digits)%Z ->
+  ST_Coordinate__from_xml (PStr (str_of_Z z)) = Ok (PInt z)
+  /\ ST_Coordinate32__from_xml (PStr (str_of_Z z)) = Ok (PInt z).
+Proof.
+  intros Hz. pose proof (str_of_Z_chars z) as Hc.
+  unfold ST_Coordinate__from_xml, ST_Coordinate__convert_from_xml, ST_Coordinate32__from_xml, ST_Coordinate32__convert_from_xml,
+    ST_Coordinate32Unqualified__convert_from_xml.
+  cbn [py_in bind].
+  rewrite !(no_letter _ _ Hc) by reflexivity. cbn [bind py_int py_Emu]. rewrite (int_of_str_of_Z z Hz). auto.
+Qed.
+
+(** left / top (ST_Coordinate) and the text-frame margins (ST_Coordinate32): every accepted int reads back as itself *)
+Theorem coordinate_exact z : (-27273042329600 <= z <= 27273042316900)%Z ->
+  stored (ad_codec A_CT_Point2D__x) (ad_kind A_CT_Point2D__x) (PInt z) = Ok (PInt z)
+  /\ stored (ad_codec A_CT_Point2D__y) (ad_kind A_CT_Point2D__y) (PInt z) = Ok (PInt z).
+Proof.
+  intros H. assert (Hb : (Z.abs z < 10 ^ Z.of_N int_max_str_digits)%Z) by (apply big_small; unfold big; lia).
+  cbn [ad_codec ad_kind A_CT_Point2D__x A_CT_Point2D__y stored row_codec enc dec].
+  rewrite desc_ST_Coordinate_ok. unfold desc_ST_Coordinate. cbn [desc_to_xml int_range_to_xml_b].
+  assert (Hr : in_range (-27273042329600) 27273042316900 z = true) by (apply in_range_spec; lia).
+  rewrite Hr. rewrite (proj1 (coordinate_reads z Hb)). auto.
+Qed.
+Theorem margin_exact z : (-2147483648 <= z <= 2147483647)%Z ->
+  stored (ad_codec A_CT_TextBodyProperties__lIns) (AOpt PNone) (PInt z) = Ok (PInt z).
+Proof.
+  intros H. assert (Hb : (Z.abs z < 10 ^ Z.of_N int_max_str_digits)%Z) by (apply big_small; unfold big; lia).
+  cbn [ad_codec A_CT_TextBodyProperties__lIns stored row_codec enc dec].
+  change (py_eqb (PInt z) PNone) with false. cbn iota.
+  rewrite desc_ST_Coordinate32_ok. unfold desc_ST_Coordinate32. cbn [desc_to_xml int_range_to_xml_b].
+  assert (Hr : in_range (-2147483648) 2147483647 z = true) by (apply in_range_spec; lia).
+  rewrite Hr. rewrite (proj2 (coordinate_reads z Hb)). auto.
+Qed.
+
+(** space_before / space_after / line spacing in points (ST_TextSpacingPoint): centipoints, rounding down *)
+Lemma spacing_point_writes z : (0 <= z <= 20116800)%Z ->
+  ST_TextSpacingPoint__to_xml (PInt z) = Ok (PStr (str_of_Z (z / 127))).
+Proof.
+  intros H. unfold ST_TextSpacingPoint__to_xml, ST_TextSpacingPoint__validate, ST_TextSpacingPoint__validate_int_in_range,
+    ST_TextSpacingPoint__validate_int, ST_TextSpacingPoint__convert_to_xml.
+  cbn [py_isinstance existsb isinstance1 orb as_bool bind py_truth negb py_lt py_gt py_order as_num cmp_num].
+  destruct (Z.compare_spec z 0) as [E|E|E]; try lia;
+    destruct (Z.compare_spec z 20116800) as [E2|E2|E2]; try lia;
+    cbn [bind py_Emu py_int py_centipoints_attr py_floordiv arith as_num]; change (Z.eqb 127 0) with false; cbn iota; reflexivity.
+Qed.
+Theorem spacing_point_quant z : (0 <= z <= 20116800)%Z ->
+  stored (ad_codec A_CT_TextSpacingPoint__val) (ad_kind A_CT_TextSpacingPoint__val) (PInt z) = Ok (PInt (z / 127 * 127))
+  /\ (0 <= z - z / 127 * 127 < 127)%Z.
+Proof.
+  intros H. split; [|apply font_size_within_quantum].
+  cbn [ad_codec ad_kind A_CT_TextSpacingPoint__val stored row_codec enc dec].
+  rewrite (spacing_point_writes z H).
+  unfold ST_TextSpacingPoint__from_xml, ST_TextSpacingPoint__convert_from_xml. cbn [py_int bind].
+  assert (0 <= z / 127 <= 20116800)%Z.
+  { split; [apply Z.div_pos; lia|]. apply Z.div_le_upper_bound; lia. }
+  rewrite int_of_str_of_Z by (apply big_small; unfold big; lia).
+  cbn [bind py_Centipoints py_mul arith as_num py_int]. reflexivity.
+Qed.
